@@ -160,13 +160,29 @@ Proof.
   unfold cst_okb. apply andb_prop in Ha. destruct Ha as [Hc Hv]. rewrite N.shiftl_1_l in Hv. rewrite Hv, andb_true_r. exact Hc.
 Qed.
 
+(** the operands of a statement ([wf_ast] goes through them position by position: none of them is the null target) *)
+Lemma wf_sargs e ms scope : forall ta tys,
+  (fix allargs (tys : list N) (l : list ast) : bool :=
+     match l with
+     | [] => true
+     | x :: r => (if is_null x then is_target_ty (hd 0 tys) else is_expr x && wf_ast e ms scope x) && allargs (tl tys) r
+     end) tys (map targ_ast ta) = true ->
+  forallb targ_okb ta = true.
+Proof.
+  induction ta as [|a r IH]; intros tys Ha; [reflexivity|].
+  cbn [map] in Ha. apply andb_prop in Ha. destruct Ha as [Ha Hr].
+  cbn [forallb]. rewrite (IH _ Hr), andb_true_r.
+  destruct a as [d|b]; cbn [targ_ast cst_ast is_null is_expr wf_ast targ_okb andb] in *; [|exact Ha].
+  unfold cst_okb. apply andb_prop in Ha. destruct Ha as [Hc Hv]. rewrite N.shiftl_1_l in Hv. rewrite Hv, andb_true_r. exact Hc.
+Qed.
+
 Lemma wf_item e ms : forall it scope, shape_ok it = true -> wf_ast e ms scope (item_ast it) = true -> item_okb it = true.
 Proof.
   fix IH 1. intros [d|bk k seg fa body|lk seg fa ta|seg k n elems|sk ta] scope Hs Hw.
   5:{ cbn [item_ast wf_ast] in Hw. cbn [item_okb]. apply andb_prop in Hw. destruct Hw as [Har Hall]. apply andb_prop in Har. destruct Har as [Har _].
       assert (Ear : op_arity (sk_op sk) = Some (N.of_nat (sk_n sk))) by (destruct sk; reflexivity). rewrite Ear in Har.
       apply N.eqb_eq in Har. unfold lenN in Har. rewrite map_length in Har.
-      apply andb_true_intro. split; [apply Nat.eqb_eq; lia|]. apply (wf_targs e ms scope). exact Hall. }
+      apply andb_true_intro. split; [apply Nat.eqb_eq; lia|]. apply (wf_sargs e ms scope ta (op_argtypes (sk_op sk))). exact Hall. }
   - cbn [item_ast item_okb]. unfold decl_ast in Hw. cbn [wf_ast] in Hw.
     apply andb_prop in Hw. destruct Hw as [Hw _]. apply andb_prop in Hw. destruct Hw as [Hw Hc].
     apply andb_prop in Hw. destruct Hw as [Hn _].
